@@ -581,6 +581,14 @@ class EQLTranslator:
         if left_rel is None or right_rel is None:
             return None
 
+        if issubclass(left_dao, right_dao) or issubclass(right_dao, left_dao):
+            # The statement has one FROM element per mapped class, so two variables of one mapped hierarchy cannot be
+            # told apart without aliases: the join would compare each row with itself.
+            raise UnsupportedQueryTypeError(
+                f"Cannot join two variables of the same mapped hierarchy: "
+                f"{left_dao.__name__} and {right_dao.__name__}"
+            )
+
         anchor_dao = get_dao_class(self.select_like.selected_variable._type_)
         if anchor_dao is None:
             raise MissingDAOError("Selected variable has no DAO class")
